@@ -2,13 +2,19 @@
 (* Trace validation for C17 (thread part): the events hook H3 emits from lib/ext2fs/rw_bitmaps.c while
    harness/bmload.c loads the bitmaps of an image, bracketed by the driver's Load / Done lines, must be a
    behaviour of BitmapLoad:
+     Load(G, nreq, flex, ..., fail)       the geometry and the <<group, kind, error class>> triples of the bitmaps
+                                          the driver damaged (bad checksum, unreadable block) and that the loader reads
      ThStart(tid, first, last, mt)        one per range of the partition formula, with exactly its bounds
-     Enter(tid, g, kind, held, inside)    the thread's next (group, kind); enabled only while no other thread is
-                                          between Enter and Leave; held = 1 (the mutex is really held; -1 on the
-                                          sequential path, which has none) and inside = 0 are required
-     Leave(tid, g, kind), ThEnd(tid, rv)
-     Done(rv, same_b, same_i, same_f)     after all threads ended: every (group, kind) loaded exactly once, and the
-                                          driver found bitmaps and flags equal to the single-threaded load
+     Enter(tid, g, kind, held, inside)    the thread's next (group, kind), which is not a damaged one; enabled only
+                                          while no other thread is between Enter and Leave; held = 1 (the mutex is
+                                          really held; -1 on the sequential path, which has none) and inside = 0
+     Leave(tid, g, kind)
+     ThEnd(tid, rv)                       rv = 0 after the thread's last pair; rv = 1 exactly when its next pair is damaged
+     Done(rv, rc, bm, im, same_xx)       after all threads ended: the join loop of the specification gives the call's
+                                          result -- error class of the first damaged pair or success, bitmaps absent
+                                          or installed with every (group, kind) loaded exactly once -- and the driver
+                                          found error code, presence and content of the bitmaps and the flags equal to
+                                          the single-threaded load of the same image
    Enter stands for the thread's unlogged Read step followed by Enter (Read touches no shared state).
    tid is the first group of the thread's range (unique per thread).                                         *)
 EXTENDS BitmapLoad, Sequences, Json, IOUtils
@@ -20,11 +26,15 @@ IsEvent(e) == l <= Len(Tr) /\ Tr[l].e = e /\ l' = l + 1
 Idx(tid) == CHOOSE i \in Thr : i < N(par) /\ First(par, i) = tid
 Known(tid) == \E i \in Thr : i < N(par) /\ First(par, i) = tid
 
+FailOf == {<<Ln.fail[j][1], Ln.fail[j][2]>> : j \in 1..Len(Ln.fail)}
+CodeOf(x) == LET j == CHOOSE j \in 1..Len(Ln.fail) : <<Ln.fail[j][1], Ln.fail[j][2]>> = x IN Ln.fail[j][3]
 ParOf == [G |-> Ln.G, nreq |-> Ln.nreq, flex |-> Ln.flex, hasflex |-> Ln.hasflex = 1, chthr |-> Ln.chthr = 1,
-          kinds |-> Ln.kinds, bad |-> {}]
+          kinds |-> Ln.kinds, bad |-> {}, fail |-> FailOf, codes |-> [x \in FailOf |-> CodeOf(x)]]
 TLoad == /\ IsEvent("Load") /\ Ln.nreq >= 1 /\ N(ParOf) <= MaxT
+         /\ \A x \in FailOf : x[1] >= 0 /\ x[1] < Ln.G /\ x[2] >= 0 /\ x[2] < Ln.kinds
          /\ par' = ParOf /\ th' = [i \in Thr |-> Idle] /\ lock' = -1 /\ inside' = 0 /\ shared' = {}
          /\ cnt' = [x \in (0..(Ln.G - 1)) \X (0..(Ln.kinds - 1)) |-> 0] /\ flags' = FALSE /\ joined' = FALSE
+         /\ jn' = 0 /\ rv' = None /\ tacc' = FALSE /\ maps' = TRUE
 TStart == /\ IsEvent("ThStart") /\ Known(Ln.tid)
           /\ LET i == Idx(Ln.tid) IN
              /\ Ln.first = First(par, i) /\ Ln.last = Last(par, i) /\ (Ln.mt = 1) = ~Sequential(par)
@@ -36,16 +46,25 @@ TEnter == /\ IsEvent("Enter") /\ Known(Ln.tid)
              /\ EnterFrom(i, "run")
 TLeave == /\ IsEvent("Leave") /\ Known(Ln.tid)
           /\ LET i == Idx(Ln.tid) IN Ln.g = th[i].g /\ Ln.kind = th[i].k /\ Leave(i)
-TEnd == IsEvent("ThEnd") /\ Known(Ln.tid) /\ Ln.rv = 0 /\ End(Idx(Ln.tid))
-TDone == /\ IsEvent("Done") /\ Join
-         /\ Ln.rv = 0 /\ Ln.same_b = 1 /\ Ln.same_i = 1 /\ Ln.same_f = 1
+TEnd == /\ IsEvent("ThEnd") /\ Known(Ln.tid)
+        /\ LET i == Idx(Ln.tid) IN
+           IF Ln.rv = 0 THEN th[i].err = None /\ End(i) ELSE FailEnd(i)
+\* the tail-problem flags are compared with the single-threaded load by the driver (same_f): `bad` is not known here
+TDone == /\ IsEvent("Done") /\ JoinAll
+         /\ Ln.rv = (IF rv' = None THEN 0 ELSE 1)
+         /\ Ln.rc = (IF rv' = None THEN 0 ELSE par.codes[rv'])
+         /\ Ln.bm = (IF maps' THEN 1 ELSE 0) /\ Ln.im = (IF maps' THEN 1 ELSE 0)
+         /\ Ln.same_rc = 1 /\ Ln.same_b = 1 /\ Ln.same_i = 1 /\ Ln.same_f = 1
 
-TraceInit == /\ par = [G |-> 1, nreq |-> 1, flex |-> 1, hasflex |-> FALSE, chthr |-> FALSE, kinds |-> 1, bad |-> {}]
+TraceInit == /\ par = [G |-> 1, nreq |-> 1, flex |-> 1, hasflex |-> FALSE, chthr |-> FALSE, kinds |-> 1, bad |-> {},
+                       fail |-> {}, codes |-> <<>>]
              /\ th = [i \in Thr |-> Idle] /\ lock = -1 /\ inside = 0 /\ shared = {}
-             /\ cnt = [x \in {<<0, 0>>} |-> 0] /\ flags = FALSE /\ joined = TRUE /\ l = 1
+             /\ cnt = [x \in {<<0, 0>>} |-> 0] /\ flags = FALSE /\ joined = TRUE
+             /\ jn = 1 /\ rv = None /\ tacc = FALSE /\ maps = TRUE /\ l = 1
 TraceNext == TLoad \/ TStart \/ TEnter \/ TLeave \/ TEnd \/ TDone
 TraceSpec == TraceInit /\ [][TraceNext]_tvars
 TraceAccepted == TLCGet("stats").diameter - 1 = Len(Tr)
-\* while a load is in progress
-Result == joined => (l = 1 \/ (shared = AllPairs /\ \A x \in AllPairs : cnt[x] = 1))
+\* after a load (the flags are not modelled here: bad = {} stands for "unknown")
+Result == joined => (l = 1 \/ /\ rv = MinFail(par) /\ maps = (par.fail = {})
+                              /\ maps => (shared = AllPairs /\ \A x \in AllPairs : cnt[x] = 1))
 =============================================================================
